@@ -95,6 +95,22 @@ func buildC07(tier string, seed int64) *Family {
 	ex = append(ex, "not(a)", "not(true())", "not(false())", "not(a = 1)", "not(//a)", "not(@a)", "not(a | @a)", "not(not(a))",
 		"true()", "false()", "true() or contains(1, 2)", "false() and contains(1, 2)", "true() or starts-with(1, 1)", "false() and sum('x')",
 		"not(false()) or contains(1, 2)", "1 = 1 or contains(1, 2)", "1 = 2 and sum('x')")
+	// operand independence: the right operand is evaluated at the context node whatever the
+	// left operand did to the shared cursor (and vice versa for node-set x node-set loops)
+	for i, mv := range moverPaths {
+		for j, st := range stayPaths[:4] {
+			op := rel[(i+j)%len(rel)]
+			if (i+j)%2 == 0 {
+				// node-set x node-set: = and != only (the statement's type combinations)
+				ex = append(ex, mv+" "+eq[(i+j/2)%2]+" "+st)
+			} else {
+				ex = append(ex, "count("+mv+") "+op+" count("+st+")")
+			}
+			if j == 0 {
+				ex = append(ex, mv+" = 9001 or "+st+" = 1", mv+" and "+st, "not("+mv+") or "+st+" = '#S1'")
+			}
+		}
+	}
 	// the same inside a predicate
 	for k := 0; k < nSeed; k++ {
 		c := pick(r, ex)
